@@ -222,7 +222,7 @@ class C02(Property):
                 'representation, pretty-printed or not), session (random add_ontology / add_event / add_foreign_element calls '
                 'incl. rejected ones); observed: raw bytes of text and attribute, values read back by a validating parser, '
                 'verdict of every call, delivered events and ontology, filter output and filter of filter output; non-trivial '
-                '= a session with an accepted event after an ontology update; distinct by content')
+                '= a session with an accepted event after a second accepted ontology; distinct by content')
 
     def generate(self, rng, tier):
         for i in range(0, len(NASTY), 6):
@@ -375,8 +375,16 @@ class C02(Property):
                 if len(vs) > 1:
                     yield dict(case, values=vs[:i] + vs[i + 1:])
 
-    def nontrivial(self, case):
-        return json.dumps(case, sort_keys=True)
+    def nontrivial_obs(self, case, obs):
+        if case['kind'] != 'session' or not isinstance(obs, dict) or 'verdicts' not in obs:
+            return None
+        seen_ont = 0
+        for op, v in zip(case['script'], obs['verdicts']):
+            if op['k'] == 'ont' and v is None:
+                seen_ont += 1
+            elif op['k'] == 'event' and v is None and seen_ont >= 2:
+                return json.dumps(case, sort_keys=True)
+        return None
 
     def sample_view(self, case):
         if case['kind'] == 'text':
